@@ -47,6 +47,15 @@ def cases(tier, seed):
         yield {"c": cd}
     for cd in _enum(1, 3, rng, 0.0004 if tier == "quick" else 0.01):
         yield {"c": cd}
+    # cycles over names that contain the function's own helper prefixes (aux_in_, c0_): every rotation / type mix
+    pool = ["a", "aux_in_a", "b", "aux_in_b", "c0_a"]
+    for ring in itertools.permutations(pool, 3):
+        for tys in itertools.product(["not", "and", "nand"], repeat=3):
+            if tys.count("not") not in (1, 3) and rng.random() > 0.25:
+                continue
+            nodes = [["i0", "input", False]] + [[n, t, True] for n, t in zip(ring, tys)]
+            edges = [[ring[k], ring[(k + 1) % 3]] for k in range(3)] + [["i0", n] for n, t in zip(ring, tys) if t != "not"]
+            yield {"c": {"name": "ring", "nodes": nodes, "edges": edges, "bbs": {}}}
     for i in range(120 if tier == "quick" else 2500):
         cd = gen.random_circuit(rng, n_in=rng.randint(1, 3), n_gates=rng.randint(2, 7), max_fanin=3, p_const=0.2,
                                 cyclic=rng.randint(1, 3), p_out=0.4, allow_input_output=rng.random() < 0.2,
